@@ -126,8 +126,11 @@ fn c28_monotone_contiguous() {
 /// Discontiguous monotone resource over the real Map64: chunks come from the owning space's high-water mark.
 /// Two consecutive requests: each grant is page-aligned, inside the space of the descriptor, grants are disjoint,
 /// a fresh chunk run is requested only when the current one cannot hold the request, counters are exact.
+fn no_spin() {}
+
 #[kani::proof]
 #[kani::unwind(18)]
+#[kani::stub(core::hint::spin_loop, no_spin)]
 fn c28_monotone_discontiguous_map64() {
     let vm_map = leak_map();
     let layout = mmtk::util::heap::vm_layout::VMLayout::new_64bit();
